@@ -43,10 +43,60 @@ pub fn gen_c12_case(rng: &mut Rng, len: usize) -> Recorder {
     let n = 1 + rng.below(4) as usize;
     let t0 = 50_000 + rng.below(1_000_000);
     let setup = c13_setup(rng, n, t0);
-    let mut rec = Recorder::new(n, t0, true, &setup);
+    // "no stall history at all" also means the LIFETIME record (engagement and pull counts) plays no part in a
+    // guard-off decision: half of the cases start from links that already have one (1 .. a long session's worth),
+    // which a 50-step history cannot build up by itself
+    let mut record: Vec<(u64, u64)> = vec![];
+    for _ in 0..n {
+        if rng.chance(1, 2) { record.push((0, 0)); }
+        else { record.push((*rng.pick(&[1u64, 2, 3, 4, 7, 100, 1_000_000]), *rng.pick(&[0u64, 1, 3, 50]))); }
+    }
+    let setup2 = move |w: &mut World| {
+        setup(w);
+        for (i, (ev, pulls)) in record.iter().enumerate() {
+            let mut h = w.conns[i].verif_hidden();
+            h.stall_gate_events = h.stall_gate_events.max(*ev);
+            h.silence_pulls = h.silence_pulls.max(*pulls);
+            w.conns[i].verif_set_hidden(h);
+        }
+    };
+    let mut rec = Recorder::new(n, t0, true, &setup2);
     let mut sc = Script { n, now: t0, cfg: gen_cfg(rng, 50), last: None };
     while rec.steps.len() < len { c12_step(rng, &mut rec, &mut sc); }
     rec
+}
+
+/// a flapping link: `rounds` separate latch engagements on link 0, each unwound by a guard-off decision; then
+/// guard-off decisions on near-equal scores (every incumbent, both modes, quality on/off) — identical to the
+/// decisions on links that never stalled
+pub fn scenario_flapper(rounds: usize) -> Recorder {
+    let t0 = 200_000u64;
+    let mut r = Recorder::new(2, t0, true, &|_w: &mut World| {});
+    let on = default_cfg();
+    let off = Cfg { guard: false, ..on };
+    let mut t = t0;
+    for _ in 0..rounds {
+        r.act(&Act::Reg(0, 40, t));
+        r.act(&Act::SrtlaAck(0, true, false, t));
+        r.act(&Act::Inbound(0, t + 3000)); r.act(&Act::Inbound(1, t + 3000));
+        r.act(&Act::Select(Some(1), t + 3000, on));                 // engages (proof 3 s old, backlog)
+        r.act(&Act::Select(Some(1), t + 3001, off));                // unwound
+        r.act(&Act::SrtAck(0, 1000, t + 3002));                     // backlog retired
+        t += 4000;
+    }
+    for load in [0u32, 1, 3] {
+        if load > 0 { r.act(&Act::Reg(1, load, t)); }
+        r.act(&Act::Inbound(0, t)); r.act(&Act::Inbound(1, t));
+        for classic in [false, true] {
+            for quality in [true, false] {
+                for last in [None, Some(0), Some(1)] {
+                    r.act(&Act::Select(last, t + 1, Cfg { classic, quality, ..off }));
+                }
+            }
+        }
+        t += 10;
+    }
+    r
 }
 
 /// a latched link with the better score: guard on routes around it, guard off must not
@@ -75,6 +125,8 @@ pub fn run(seed: u64, tier: &str, out: &std::path::Path, _extra: &[(String, Stri
     let mut totals = Default::default();
     let mut diverged = 0u64;
     push_case(&mut run, "scenario", &scenario_penalty(), &mut totals);
+    push_case(&mut run, "scenario", &scenario_flapper(3), &mut totals);
+    push_case(&mut run, "scenario", &scenario_flapper(6), &mut totals);
     let (cases, len) = if tier == "thorough" { (1700, 56) } else { (170, 56) };
     for k in 0..cases {
         let mut r = rng.fork(k as u64);
